@@ -999,3 +999,83 @@ fn abandon_history(run: &mut Run, rng: &mut Rng, hidx: u64) -> anyhow::Result<()
     let _: Option<Response<Bytes>> = None;
     Ok(())
 }
+
+/// C18 on a whole network: the per-peer in-flight limit in front of the service of a listener; a dialer
+/// has requests EXECUTING when its connection goes away (explicit disconnect by either side, or its
+/// network shut down); when the same identity comes back its slots must be free again ("a slot is freed
+/// whenever a request finishes ... or by being cancelled").
+pub fn inflight_over_reconnect(run: &mut Run, cases: u64) -> anyhow::Result<()> {
+    for case in 0..cases {
+        let seed = run.seed ^ (case << 20) ^ 0x18_18;
+        let mut rng = Rng::new(seed);
+        let max = 1 + rng.below(2) as usize;
+        let block = rng.chance(1, 2);
+        let how = rng.below(3); // 0: dialer disconnects, 1: listener disconnects, 2: dialer's network shuts down
+        run.mark(&format!("scenario inflight-over-reconnect case {case} seed {} (re-run with ./check C18 --seed <seed>)", run.seed));
+        let rt = paused_rt();
+        let problems: anyhow::Result<Vec<String>> = rt.block_on(async move {
+            let fabric = Fabric::new(seed);
+            let l = start_node_inflight(&fabric, seed, 1, config_idle(120_000), max, block)?;
+            let key = key_of(seed, 2);
+            let d = start_node_with(&fabric, 2, key, "verif", None, config_idle(120_000))?;
+            let p = d.net.connect(l.addr).await?;
+            // fill every slot with a request that never finishes by itself
+            let mut pending = vec![];
+            for i in 0..max {
+                let net = d.net.clone();
+                pending.push(tokio::spawn(async move { net.rpc(p, Request::new(Bytes::from_static(b"x")).with_header("x-id", format!("hold{i}")).with_header("x-hang", "1")).await.map(|r| r.status()) }));
+            }
+            tokio::time::sleep(Duration::from_millis(300)).await;
+            let started = l.svc.calls.load(std::sync::atomic::Ordering::SeqCst);
+            let mut problems = vec![];
+            if started != max as u64 {
+                problems.push(format!("{started} of {max} slot-filling requests reached the service"));
+            }
+            match how {
+                0 => {
+                    let _ = d.net.disconnect(l.id);
+                }
+                1 => {
+                    let _ = l.net.disconnect(d.id);
+                }
+                _ => {
+                    let _ = d.net.shutdown().await;
+                }
+            }
+            tokio::time::sleep(Duration::from_millis(1500)).await;
+            for h in pending {
+                h.abort();
+            }
+            // the same identity comes back
+            let d2 = if how == 2 { start_node_with(&fabric, 3, key, "verif", None, config_idle(120_000))? } else { d };
+            let p2 = tokio::time::timeout(Duration::from_secs(20), d2.net.connect(l.addr)).await??;
+            let mut ok = 0;
+            for i in 0..max {
+                let r = tokio::time::timeout(Duration::from_secs(20), d2.net.rpc(p2, Request::new(Bytes::from_static(b"y")).with_header("x-id", format!("again{i}")))).await;
+                match r {
+                    Ok(Ok(resp)) if resp.status() == StatusCode::Success => ok += 1,
+                    Ok(Ok(resp)) => problems.push(format!("after the connection carrying {max} executing request(s) went away and the peer reconnected, its request was answered {:?} (limit {max}, {})", resp.status(), if block { "Block" } else { "ReturnError" })),
+                    Ok(Err(e)) => problems.push(format!("request after reconnect failed: {e:#}")),
+                    Err(_) => problems.push(format!("after the connection carrying {max} executing request(s) went away and the peer reconnected, its request waits forever for a slot (limit {max}, Block)")),
+                }
+            }
+            let _ = ok;
+            let lc = l.svc.log.lock().unwrap().lifecycle.clone();
+            for i in 0..max {
+                if let Some((s, f, dr)) = lc.get(&format!("hold{i}")) {
+                    if *s == 1 && f + dr == 0 {
+                        problems.push(format!("the handler of request hold{i} is still alive 1.5 s after its connection went away"));
+                    }
+                }
+            }
+            Ok(problems)
+        });
+        drop(rt);
+        run.eval(&format!("inflight-over-reconnect {case} max={max} block={block} how={how}"), true);
+        run.count("inflight-over-reconnect", ["dialer-disconnects", "listener-disconnects", "dialer-shuts-down"][how as usize]);
+        for p in problems? {
+            run.oracle_fail(json!({"kind": "in-flight limiter: a slot held by a request whose connection went away is never freed", "detail": p, "limit": max, "mode": if block { "Block" } else { "ReturnError" }, "seed": run.seed, "case": case}));
+        }
+    }
+    Ok(())
+}
